@@ -423,6 +423,12 @@ def run(ctx):
     if n14 < 3:
         raise AnalysisBroken("only %d refusal sites judged in orcparse.c" % n14)
 
+    # ---- D15: what the parser accepts without complaint can be compiled without aborting: the parser does not look at operand
+    # classes (`loadpw t1, t2` parses); orc_compiler_check_sizes must refuse a non-scalar operand in a SCALAR position before a
+    # back-end rule asserts on it (rule shared with C05)
+    import importlib
+    importlib.import_module("rules.c05").scalar_operand_checked(db, rep, "D15-SCALAR-OPERAND-CHECKED")
+
     # ---- D8: parser state never keeps a freed pointer ---------------------
     # (a freed parser/program field left in place is freed again by orc_parse_code / orc_program_free,
     #  or handed to the caller through orc_parse_get_init_function)
